@@ -19,6 +19,10 @@ EXTENDS Naturals, Sequences, FiniteSets, TLC, Json
 CONSTANTS MaxK, M, EmitRecords
 
 VARIABLES K, S, start, companions,
+          premarked,     \* django_migrations already lists the migrations about to be marked (say, an
+                         \* earlier `migrate --fake` with Django Evolution disabled)
+          failFirst,     \* a first attempt of the upgrade fails at its first evolution statement
+          attempted,
           evoRecorded,   \* evolution labels recorded as applied
           evoExecuted,   \* evolution labels whose SQL ran (in order), per run
           migRecorded,   \* migration number -> how many rows in django_migrations
@@ -27,7 +31,7 @@ VARIABLES K, S, start, companions,
           sigMethod, sigApplied,
           pc, run
 
-vars == <<K, S, start, companions, evoRecorded, evoExecuted, migRecorded, migExecuted,
+vars == <<K, S, start, companions, premarked, failFirst, attempted, evoRecorded, evoExecuted, migRecorded, migExecuted,
           columns, sigMethod, sigApplied, pc, run>>
 
 (* evolution labels before the move, in sequence order *)
@@ -52,13 +56,18 @@ Starts == {<<"fresh", 0>>} \cup { <<"evo", j>> : j \in 0..P } \cup { <<"onmig", 
 Init == /\ K \in 0..MaxK /\ S \in 1..M
         /\ start \in Starts
         /\ companions \in SUBSET {"blog", "mig"}
+        \* only when an evolution with SQL is pending is there a statement to fail at
+        /\ failFirst \in (IF start[1] = "evo" /\ start[2] < P THEN BOOLEAN ELSE {FALSE})
+        /\ attempted = FALSE
+        /\ premarked \in (IF start[1] = "evo" THEN BOOLEAN ELSE {FALSE})
         /\ run = 1 /\ pc = "begin"
         /\ evoExecuted = <<>> /\ migExecuted = <<>>
         /\ CASE start[1] = "fresh" ->
                   /\ evoRecorded = {} /\ migRecorded = Zero /\ columns = {}
                   /\ sigMethod = "none" /\ sigApplied = {}
              [] start[1] = "evo" ->
-                  /\ evoRecorded = SeqSet(Prefix(PreMove, start[2])) /\ migRecorded = Zero
+                  /\ evoRecorded = SeqSet(Prefix(PreMove, start[2]))
+                  /\ migRecorded = [n \in 1..M |-> IF premarked /\ n <= S THEN 1 ELSE 0]
                   /\ columns = { <<"name", 0>> } \cup ColsOfEvos(Prefix(PreMove, start[2]))
                   /\ sigMethod = "evolutions" /\ sigApplied = {}
              [] OTHER ->
@@ -68,7 +77,15 @@ Init == /\ K \in 0..MaxK /\ S \in 1..M
                   /\ sigMethod = "migrations" /\ sigApplied = 1..start[2]
 
 Recorded == { n \in 1..M : migRecorded[n] > 0 }
-Step(next) == pc' = next /\ UNCHANGED <<K, S, start, companions, run>>
+Step(next) == pc' = next /\ UNCHANGED <<K, S, start, companions, run, failFirst, attempted, premarked>>
+
+(* a failed attempt: the first evolution statement fails, the transaction is rolled back, and
+   (as repaired, the marks being recorded only after all batches) nothing at all has changed *)
+FailedAttempt ==
+    /\ pc = "begin" /\ failFirst /\ ~attempted /\ run = 1
+    /\ attempted' = TRUE
+    /\ UNCHANGED <<K, S, start, companions, failFirst, premarked, run, pc, evoRecorded, evoExecuted, migRecorded,
+                   migExecuted, columns, sigMethod, sigApplied>>
 
 (* a brand-new app that ends up on migrations is created by its migrations; the whole
    evolution sequence is recorded without running any of it *)
@@ -80,7 +97,7 @@ FreshInstall ==
 
 (* pending evolutions first, the move among them *)
 RunEvolutions ==
-    /\ pc = "begin" /\ sigMethod = "evolutions"
+    /\ pc = "begin" /\ sigMethod = "evolutions" /\ (failFirst => attempted)
     /\ LET pending == SelectSeq(AllEvos, LAMBDA l : l \notin evoRecorded)
        IN /\ evoExecuted' = pending
           /\ evoRecorded' = evoRecorded \cup SeqSet(pending)
@@ -119,9 +136,10 @@ SaveSignature ==
 (* the second upgrade *)
 Rerun == /\ pc = "done" /\ run = 1
          /\ run' = 2 /\ pc' = "begin" /\ evoExecuted' = <<>> /\ migExecuted' = <<>>
-         /\ UNCHANGED <<K, S, start, companions, evoRecorded, migRecorded, columns, sigMethod, sigApplied>>
+         /\ UNCHANGED <<K, S, start, companions, failFirst, attempted, premarked, evoRecorded, migRecorded, columns,
+                        sigMethod, sigApplied>>
 
-Next == FreshInstall \/ RunEvolutions \/ MarkApplied \/ AlreadyOnMigrations \/ RunMigration
+Next == FailedAttempt \/ FreshInstall \/ RunEvolutions \/ MarkApplied \/ AlreadyOnMigrations \/ RunMigration
         \/ SaveSignature \/ Rerun
 Spec == Init /\ [][Next]_vars
 
@@ -156,6 +174,7 @@ SetToSeq(X) == IF X = {} THEN <<>> ELSE LET x == CHOOSE y \in X : TRUE IN <<x>> 
 
 Emit == (EmitRecords /\ Done) =>
           PrintT(<<"REC", ToJson([K |-> K, S |-> S, start |-> start, companions |-> SetToSeq(companions),
+                                   failFirst |-> failFirst, premarked |-> premarked,
                                    run |-> run, evoExecuted |-> evoExecuted, migExecuted |-> migExecuted,
                                    evoRecorded |-> SetToSeq(evoRecorded), migRecorded |-> migRecorded,
                                    columns |-> SetToSeq(columns), sigApplied |-> SetToSeq(sigApplied),
